@@ -268,8 +268,8 @@ func main() { harness.Main("C06", "fault_enumeration", run) }
 
 func run(r *harness.Run) {
 	verifhook.Clock = func() time.Time { return vnow }
-	r.Rule("12 event shapes (message; member join/knock/leave/kick/ban/invite to another and to the same server; join and invite carrying join_authorised_via_users_server; other state; v1/v2 event ID naming another server) x 15 room versions (pseudo-ID version excluded, see assumptions) x per-server state in {valid, absent, corrupted, made by another key under the same key ID, key unknown, expired at / after ts, valid_until before / at ts, valid_until beyond / within the 7-day cap}: every single server (5, incl. an unrelated one) in every state, and every pair of servers in every pair of states; real KeyRing over a scripted database, virtual clock placed so that the cap boundary is exact. Oracle: accept <=> every server in the reference required set has a valid-at-ts signature under the version's rule. Non-trivial = distinct case with at most one failing required signer.")
-	r.Assume("ed25519 trusted; reference signatures are made over the reference redaction (agreement with the library's redaction is C05)", "org.matrix.msc4014 (pseudo IDs) uses per-user keys and mxid_mapping; it is exercised only by C18 for robustness, not here")
+	r.Rule("12 event shapes (message; member join/knock/leave/kick/ban/invite to another and to the same server; join and invite carrying join_authorised_via_users_server; other state; v1/v2 event ID naming another server) x 15 room versions x per-server state in {valid, absent, corrupted, made by another key under the same key ID, key unknown, expired at / after ts, valid_until before / at ts, valid_until beyond / within the 7-day cap}: every single server (5, incl. an unrelated one) in every state, and every pair of servers in every pair of states; real KeyRing over a scripted database, virtual clock placed so that the cap boundary is exact. Oracle: accept <=> every server in the reference required set has a valid-at-ts signature under the version's rule. Pseudo-ID version (own sub-harness): message / leave / invite / join x sender-key signature state x invited-key signature state x 11 mxid_mapping states (valid, missing, unsigned, signed only by another server, corrupted, wrong key, key unknown / expired / past validity, valid plus a bad or unknown other-server signature) x an unrelated server signature on the event; accept <=> the sender key (and for invites the invited key) signed the event and, for joins, the mapping carries a valid-at-ts signature of the mapped user's server. Non-trivial = distinct case with at most one failing required signer.")
+	r.Assume("ed25519 trusted; reference signatures are made over the reference redaction (agreement with the library's redaction is C05)", "for org.matrix.msc4014 (pseudo IDs) the \"sender's server\" of a join is the server of the user the mxid_mapping names")
 	r.OnReplay("case", func(raw json.RawMessage) error {
 		var c c06Case
 		if err := json.Unmarshal(raw, &c); err != nil {
@@ -277,6 +277,7 @@ func run(r *harness.Run) {
 		}
 		return runCase(r, c)
 	})
+	runPseudoAll(r)
 	if r.Replaying() {
 		return
 	}
@@ -323,6 +324,7 @@ func run(r *harness.Run) {
 		r.Parallel(len(g), func(i int) { one(g[i]) })
 	}
 	r.Count("clock_positions", int64(len(groups)))
+	explorePseudo(r)
 	for _, c := range cases[:0] {
 		if err := runCase(r, c); err != nil {
 			var ks []string
